@@ -983,6 +983,10 @@ func (s *Store[K, V]) Recover(version uint64, reader io.Reader) error {
 	// is restored into a smaller cache is the most recently used end of the region
 	// and never exceeds the new capacity
 	var windowFull, probationFull, protectedFull bool
+	// entries only make sense once the metadata block (version, clock origin) was
+	// seen: a stream whose metadata block is missing, moved or no longer
+	// recognisable must not be loaded under the wrong clock or version
+	var metaLoaded bool
 	for {
 		// reset block first
 		block.Data = nil
@@ -998,10 +1002,15 @@ func (s *Store[K, V]) Recover(version uint64, reader io.Reader) error {
 		}
 
 		reader := bytes.NewReader(block.Data)
+		if block.Type != 1 && !metaLoaded {
+			return errors.New("metadata block missing")
+		}
 		if block.Type == 255 {
 			break
 		}
 		switch block.Type {
+		default:
+			return errors.New("unknown block type")
 		case 1: // metadata
 			metaDecoder := gob.NewDecoder(reader)
 			m := &StoreMeta{}
@@ -1014,6 +1023,7 @@ func (s *Store[K, V]) Recover(version uint64, reader io.Reader) error {
 			}
 			s.timerwheel.clock.SetStart(m.StartNano)
 			s.policy.sketch.EnsureCapacity(uint(m.Total))
+			metaLoaded = true
 		case 2: // window lru
 			entryDecoder := gob.NewDecoder(reader)
 			for {
